@@ -212,16 +212,35 @@ func wantsFunc(g *Gen, f *ssa.Function, prop string) bool {
 	case "C03", "C06", "C07", "C09", "C11", "C15", "C18":
 		return g.ReachableFromAPI()[f]
 	}
-	c := g.Spec.Contracts[FuncKey(f)]
-	if c == nil {
-		return false
-	}
 	has := func(tags []string) bool {
 		for _, t := range tags {
 			if t == prop {
 				return true
 			}
 		}
+		return false
+	}
+	// a function (with or without a contract of its own) that calls a function whose precondition belongs to the
+	// property carries an obligation of the property: a new helper cannot take a call out of the check's sight
+	if g.ReachableFromAPI()[f] {
+		for _, b := range f.Blocks {
+			for _, in := range b.Instrs {
+				if call, ok := in.(*ssa.Call); ok {
+					if sc := call.Common().StaticCallee(); sc != nil {
+						if cc := g.Spec.Contracts[FuncKey(sc)]; cc != nil {
+							for _, r := range cc.Requires {
+								if has(r.Tags) {
+									return true
+								}
+							}
+						}
+					}
+				}
+			}
+		}
+	}
+	c := g.Spec.Contracts[FuncKey(f)]
+	if c == nil {
 		return false
 	}
 	if has(c.Tags) {
@@ -259,6 +278,7 @@ func cmdCheck(args []string) {
 	g := loadAll(*repo, *verif)
 	timeout := 10000
 	coverReturns = *tier == "thorough"
+	heightAssumptions = *prop == "C09" || *prop == ""
 	if *tier == "thorough" {
 		timeout = 20000
 	}
@@ -488,6 +508,10 @@ func cmdCheck(args []string) {
 				line := fmt.Sprintf("UNDECIDED property=%s function=%s clause=%s: the contract names a function that /repo does not declare", *prop, shortKey(k), c.Pos)
 				undecided = append(undecided, line)
 				fmt.Println(line)
+				violations++
+				r := &Result{O: &Obligation{Name: shortKey(k) + "/lost.function", Kind: "lost", Func: k, Pos: c.Pos, Text: "the contract names a function that /repo does not declare"}, Status: "failed", Solver: "none"}
+				rp := writeReplay(*verif, *prop, r)
+				lines = append(lines, fmt.Sprintf("VIOLATION property=%s replay=%s obligation=%s no-failing-input-found", *prop, rp, r.O.Name))
 			}
 		}
 	}
@@ -569,6 +593,7 @@ func firstOr(a []string, d string) string {
 func propertyAssumptions(p string) []string {
 	common := map[string][]string{
 		"C01": {"isEv / ret_f are the graphs of the real functions (assumed for the actual arguments and results of each call only)", "known findings: binding powers of projection right-hand sides (see known_findings.json)"},
+		"C09": {"recursion over the AST terminates because the AST is a finite tree: where a node is inspected, the nodes stored in its fields are assumed to lie below it under a height function (the parser builds nodes from already built children and nothing writes to a node afterwards: C06/C07 frame obligations)", "termination of a loop or recursion is proved given that every callee returns; callees outside the repository are assumed to return", "the recursion depth findings are listed in known_findings.json"},
 		"C04": {"the ghost token stream is what the lexer yields (defines clauses of advance/advance2/setCurrent)"},
 		"C07": {"reduction lemma A1 (DESIGN.md): an activation that writes only memory it allocated itself cannot race"},
 		"C11": {"the expression text handed to Search/Compile/MustCompile is a whole string (requires clause of the API functions: an assumption, they have no caller in the repository)", "facts about Go's UTF-8 segmentation in prelude.smt2 (an ASCII byte is never inside a longer unit; decode/rune-table axioms)", "keys read back from a map[string]T are aligned because keys are checked where they are inserted"},
